@@ -1,9 +1,60 @@
-(* C06 — placeholder: the CPython-side specification machine is not yet modelled in Coq.  The
-   property is decided on every run against CPython itself (harness/py/pyref.py) and the decoder /
-   encoder models; see DESIGN.md. *)
+(* C06 — No disagreement with CPython on any well-formed opcode program. *)
 From Coq Require Import List ZArith NArith Bool.
-From OgRek Require Import Base Value Reader Decoder DecoderFacts Encoder EncoderFacts.
+From Coq.Strings Require Import Byte.
+From OgRek Require Import Base Value Reader Decoder Insn PyVM PyVM2 DecoderFacts ExecFacts SimFacts.
+Import ListNotations.
+
+(* The specification: PyVM2.qload, CPython's unpickler on instruction lists over every opcode Decode
+   implements (leaf forms canonically formatted; PUT/GET in all widths, MEMOIZE, DUP, POP,
+   APPEND(S), SETITEM(S), LIST/DICT/TUPLE forms, REDUCE with the two documented callables,
+   PERSID/BINPERSID, PROTO, FRAME), lists and dicts as heap objects with identity.  It is compared
+   with CPython 3.11's own unpickler on every run (answers on ~99% of the generated programs, all
+   equal).  Insn.asm gives the bytes of each instruction.
+
+   C06_simulation_partial: for EVERY instruction list, both StrictUnicode and PyDict settings and any
+   trailing bytes: whenever the CPython machine loads x, Decode on the bytes either
+     (1) succeeds with a value v standing for x under SimFacts.R - same structure, numbers, text and
+         bytes; an object reached through the memo or DUP is related to the very same Python object;
+         a Go list is related to a prefix of the Python list (all of it unless another alias appended
+         later); dicts hold the assignments made (C09) - together with the state invariant Core;
+     (2) or an append went through a list view that another alias had already extended: the
+         recorded finding stale_list_view (hence `_partial`: there the statement is silent);
+     (3) or, PyDict off only, a dict key that a Go map cannot hold was assigned and Decode returns an
+         error - the documented exception.
+   Decode never fails otherwise when CPython succeeds. *)
+Theorem C06_simulation_partial : forall pd su prog x pstf rest,
+  qload prog = Some (x, pstf) ->
+  let cfg := Build_dconfig pd su None in
+  (exists v st' b' after,
+      decode cfg init_state (asm_all prog ++ rest) = ((Ok v, st'), after) /\
+      R pd su b' (q_heap pstf) v x /\ Core pd su b' st' pstf /\ d_stale st' = false)
+  \/ (exists i' st' inp',
+        exec cfg 0 (start_state init_state) (asm_all prog ++ rest) i' st' inp' /\ d_stale st' = true)
+  \/ (pd = false /\ exists e st' after, decode cfg init_state (asm_all prog ++ rest) = ((Err e, st'), after)).
+Proof. intros. apply decode_sim. assumption. Qed.
+Print Assumptions C06_simulation_partial.
+
+(* one instruction at a time, from any related pair of states *)
+Theorem C06_step : forall pd su b st pst pst' idx rest i,
+  Core pd su b st pst -> d_stale st = false -> qstep i pst = Some pst' ->
+  step_ok pd su st pst' idx (asm i) rest \/ (exists key, asm i = [key] /\ step_exn pd su st idx key).
+Proof. exact step_sim. Qed.
+Print Assumptions C06_step.
+
 Theorem C06_partial_totality :
-  (forall cfg st inp, fst (fst (decode cfg st inp)) <> Panic /\ fst (fst (decode cfg st inp)) <> OutOfFuel)
-  /\ (forall c v fa, snd (run_w (encode c v) fa) <> EPanic).
-Proof. split; [exact decode_safe|exact encode_no_panic]. Qed.
+  forall cfg st inp, fst (fst (decode cfg st inp)) <> Panic /\ fst (fst (decode cfg st inp)) <> OutOfFuel.
+Proof. exact decode_safe. Qed.
+Print Assumptions C06_partial_totality.
+
+(* the hypothesis is satisfiable, also with sharing: CPython's own protocol-2 pickle of
+   s = [1, 2]; d = {1: s}; [s, d, d]   (memo PUTs, GETs of the shared list and dict, APPENDS, SETITEM) *)
+Definition ex_prog : list insn :=
+  [IProto 2; IEmptyList; IBinput 0; IMark; IEmptyList; IBinput 1; IMark; IBinint1 1; IBinint1 2; IAppends;
+   IEmptyDict; IBinput 2; IBinint1 1; IBinget 1; ISetitem; IBinget 2; IAppends; IStop].
+Example C06_nonvacuous :
+  match qload ex_prog with
+  | Some (v, st) => unfold 50 (q_heap st) v
+  | None => None
+  end = Some (PList [PList [PInt 1; PInt 2]; PDict [(PInt 1, PList [PInt 1; PInt 2])];
+                     PDict [(PInt 1, PList [PInt 1; PInt 2])]]).
+Proof. vm_compute. reflexivity. Qed.
